@@ -134,6 +134,7 @@ func init() {
 	register(&PropertyRule{ID: "C15", Explain: "C15 (convergence): existence of each recovery edge only; see DESIGN.md §5 C15", Run: func(c *Check) {
 		c15Recovery(c)
 		c10AutoLeave(c)
+		c10Hup(c) // a campaign is refused only for a committed, unapplied configuration change
 	}})
 	register(&PropertyRule{ID: "C03", Explain: "structural necessary conditions of C03 (log matching): see DESIGN.md §5 C03", Run: func(c *Check) {
 		gTrunc(c)
